@@ -465,3 +465,77 @@ def deliver_args(ctx, L, rule="R-DELIVER-ARGS"):
                     ctx.holds(rule, inst)
     if n < 2:
         ctx.unknown(rule, "single-frame deliveries not found in %s (%d)" % (f.qual, n))
+
+
+def announced_pgn(ctx, L, rule="R-ANNOUNCED-PGN"):
+    """the PGN announced in RTS / BAM and stored in the send session is data page | PDU format | (PS for a broadcast of a
+    PDU2 group, 0 for a destination-specific transfer) of send_pgn's arguments"""
+    from sa.objeval import construct
+    f = L.send_pgn
+    seen = {}
+    for r in runs(ctx, f):
+        sites = []
+        for name in ("__send_tp_rts", "__send_tp_bam"):
+            for i, e in L.calls(r, name):
+                a = bind_args(e.value, L.builder(name))
+                sites.append((i, e, "%s announces" % name, a.get("pgn_value")))
+        for i, e in r.effects():
+            if e.kind == "store" and e.value[0] == "dict" and root_field(e.target) == "_snd_buffer":
+                d = dict(e.value[1])
+                if ("c", "pgn") in d:
+                    bam = bool(L.calls(r, "__send_tp_bam"))
+                    sites.append((i, e, "%s session stores" % ("BAM" if bam else "RTS/CTS"), d[("c", "pgn")]))
+        for i, e, what, v in sites:
+            bam = "bam" in what.lower()
+            inst = "%s %s the group's own PGN" % (L.tag, what)
+            if v is None:
+                seen.setdefault(inst, []).append(("unknown", "PGN argument not bound", e.node))
+                continue
+            try:
+                bv = _pgn_bits(ctx.prog, v, r, i)
+            except AnalysisError as ex:
+                seen.setdefault(inst, []).append(("unknown", str(ex), e.node))
+                continue
+            if bv is None:
+                seen.setdefault(inst, []).append(("unknown", "announced PGN %s is not a property of a ParameterGroupNumber built here" % pretty(v)[:80], e.node))
+                continue
+            want = {}
+            for k in range(8):
+                want[8 + k] = ("b", "pdu_format", k)
+                want[k] = ("b", "pdu_specific", k) if bam else 0
+            want[16] = ("b", "data_page", 0)
+            # (for a broadcast the PS byte may also be cleared: for a PDU1 group it is the global address, not part of the PGN)
+            bad = [k for k in range(17) if bv.bit(k) != want[k] and not (bam and k < 8 and bv.bit(k) == 0)]
+            if bad:
+                seen.setdefault(inst, []).append(("bad", "PGN is %s: bit %d is not taken from %s" % (
+                    bv.describe(), bad[0], "data_page" if bad[0] == 16 else "pdu_format" if bad[0] >= 8 else ("pdu_specific" if bam else "0 (destination-specific)")), e.node))
+            else:
+                seen.setdefault(inst, []).append(("ok", "", e.node))
+    for inst, res in sorted(seen.items()):
+        bad = [x for x in res if x[0] == "bad"]
+        unk = [x for x in res if x[0] == "unknown"]
+        if bad:
+            ctx.violated(rule, f, inst, bad[0][1] + ": the receiver reassembles the payload but reports it under a different parameter group", bad[0][2])
+        elif unk:
+            ctx.unknown(rule, "%s: %s" % (inst, unk[0][1]))
+        else:
+            ctx.holds(rule, inst)
+    if not seen:
+        ctx.unknown(rule, "no RTS/BAM announcement found in %s" % f.qual)
+
+
+def _pgn_bits(prog, v, r, i):
+    """bits of <ParameterGroupNumber(...)>.value with the attribute stores made on the object before effect i applied"""
+    from sa.objeval import construct
+    if not (v[0] == "attr" and v[1][0] == "call" and v[1][1] == ("clsref", "ParameterGroupNumber")):
+        return None
+    objsym = v[1]
+    o = construct(prog, "ParameterGroupNumber", objsym[2], objsym[3])
+    for j, e in r.effects():
+        if j >= i:
+            break
+        if e.kind == "store" and e.target[0] == "attr" and e.target[1] == objsym:
+            o.set(e.target[2], e.value)
+        elif e.kind == "aug" and e.target[0] == "attr" and e.target[1] == objsym:
+            raise AnalysisError("augmented store to a field of the PGN object")
+    return BitEval(param_leaf({"data_page": 1, "pdu_format": 8, "pdu_specific": 8})).ev(o.get(v[2]))
